@@ -243,7 +243,7 @@ class Recorder:
         after = snapshot(self.mab, rng=False, skip=("arm_to_expectation",) if cfg.lp == "ts" else ())
         where = {"event": len(self.events) + 1, "q": list(x)}
         if after != before:
-            self.finding("readonly.changed", "predict_expectations changed the model: %s" % "; ".join(diff(before, after)), where)
+            self.readonly_verdict(twin2, before, after, where)
         arms = list(self.mab.arms)
         if not isinstance(result, dict) or list(result.keys()) != arms:
             self.finding("shape.keys", "expectation keys %r, arms %r" % (list(result.keys()) if isinstance(result, dict)
@@ -296,8 +296,9 @@ class Recorder:
         except Exception as error:  # noqa
             self.finding("predict.exception", "predict_expectations of %d rows raised %s: %s" % (m, type(error).__name__, error), where)
             return
-        if snapshot(self.mab, rng=False, skip=skip) != before:
-            self.finding("readonly.changed", "predict_expectations changed the model", where)
+        after = snapshot(self.mab, rng=False, skip=skip)
+        if after != before:
+            self.readonly_verdict(twin2, before, after, where)
         arms = list(self.mab.arms)
         if not isinstance(result, list) or len(result) != m or any(not isinstance(r, dict) or list(r.keys()) != arms for r in result):
             self.finding("shape.rows", "predict_expectations with %d rows returned %r" % (m, _short(result)), where)
@@ -325,6 +326,38 @@ class Recorder:
             self.queries.append({"event": len(self.events), "q": list(x), "result": result[i], "twin": twin2, "seed": seeds[i],
                                  "arms": list(self.arms), "calls": list(self.calls),
                                  "tags": ["clusters_readded_arm_pending"] if self.pending_readd else []})
+
+    def continuation(self, mab):
+        """Outputs of a continuation (training, refit on one arm only, queries) on a deep copy."""
+        cfg = self.cfg
+        work = copy.deepcopy(mab)
+        out = []
+        pts = [list(map(float, r[2])) for r in self.rows[:3]] + [[float(cfg.grid + 1)] * cfg.dims]
+        def train(op, rows):
+            d = np.asarray([cfg.cf.lm[a] for a, _, _ in rows])
+            r = np.asarray([cfg.cf.reward(x) for _, x, _ in rows])
+            c = np.asarray([x for _, _, x in rows], dtype=float)
+            getattr(work, op)(d, r, c)
+        try:
+            out.append(work.predict_expectations(pts))
+            train("partial_fit", self.rows[:2])
+            out.append(work.predict_expectations(pts))
+            first = self.rows[0][0]
+            only = [r for r in self.rows if r[0] == first] * max(1, cfg.n_clusters if cfg.np == "clusters" else cfg.k)
+            train("fit", only[: max(2, cfg.k, cfg.n_clusters)])
+            out.append(work.predict_expectations(pts[:2]))
+        except Exception as error:  # noqa
+            out.append("raised " + type(error).__name__)
+        return out
+
+    def readonly_verdict(self, unqueried, before, after, where):
+        """A changed snapshot may be an internal cache: the verdict is whether the queried bandit and the copy that was
+        never queried, put at the same stream positions, answer a continuation identically."""
+        from harness.snap import copy_streams
+        other = copy.deepcopy(unqueried)
+        if copy_streams(self.mab, other) and same(self.continuation(self.mab), self.continuation(other)):
+            return
+        self.finding("readonly.changed", "predict_expectations changed the model: %s" % "; ".join(diff(before, after)), where)
 
     def finding(self, clause, detail, where):
         self.findings.append({"clause": clause, "detail": detail, "op": "query" if "q" in where else where.get("op"),
